@@ -298,3 +298,114 @@ def numpy_scalars_into_scopes(ctx: Ctx, modules: tuple[str, ...] = ("cirkit.temp
     if not out:
         out.append(unres("R14e", "cirkit.templates.region_graph", "scope-members", "no function with an np.ndarray parameter found", ""))
     return out
+
+
+# ------------------------------------------------------------------------------------------ R14f
+NONCONTIG = {"permute", "transpose", "einsum", "expand", "expand_as", "movedim", "swapaxes", "narrow", "t", "T", "mT", "unbind", "chunk", "split"}
+
+
+def view_of_noncontiguous(ctx: Ctx, modules: tuple[str, ...] = ("cirkit.backend.torch.layers", "cirkit.backend.torch.semiring", "cirkit.backend.torch.queries", "cirkit.backend.torch.circuits")) -> list[Ob]:
+    """R14f -- ``Tensor.view`` needs compatible strides.
+
+    ``view`` raises ('view size is not compatible with input tensor's size and stride') when the tensor
+    is not contiguous in the merged axes.  The result of ``einsum`` / ``permute`` / ``transpose`` /
+    ``expand`` is in general not contiguous -- for *some* sizes it is (which is why such code passes
+    its tests): a ``.view(..)`` applied directly to such a result, without ``.contiguous()``, fails
+    for the other sizes (a TensorDot layer whose contracted size is 1).  ``reshape`` is the size-
+    independent spelling."""
+    out: list[Ob] = []
+    n_views = 0
+    for f in ctx.repo.iter_functions():
+        if not f.module.name.startswith(modules):
+            continue
+        views = [n for n in walk_no_nested(f.node) if isinstance(n, ast.Call) and isinstance(n.func, ast.Attribute) and n.func.attr == "view"]
+        if not views:
+            continue
+        ld = LocalDefs(f.node)
+        for v in views:
+            n_views += 1
+            recv = v.func.value
+            defs = [recv]
+            if isinstance(recv, ast.Name):
+                ds = ld.defs.get(recv.id, [])
+                # the definition that textually precedes the view (flow-insensitive otherwise)
+                ds = [d for d in ds if getattr(d, "lineno", 0) <= v.lineno]
+                defs = ds[-1:] if ds else [recv]
+            site = f"{f.module.relpath}:{v.lineno}"
+            inst = f"view:{unparse(recv)[:30]}"
+            prod = None
+            for d in defs:
+                if isinstance(d, ast.Call) and isinstance(d.func, ast.Attribute) and d.func.attr in NONCONTIG:
+                    prod = d.func.attr
+                if isinstance(d, ast.Attribute) and d.attr in NONCONTIG:
+                    prod = d.attr
+            if prod:
+                out.append(viol("R14f", f.qualname, inst, f"`{unparse(v)[:60]}` views the result of {prod}(..) without .contiguous(): the strides of that result depend on the sizes, so for some configurations (e.g. a contracted or batch size of 1) evaluation raises RuntimeError; reshape() is size-independent", site))
+            else:
+                out.append(ok("R14f", f.qualname, inst, "not the direct result of a stride-changing operation", site, nontrivial=False))
+    out.append(ok("R14f", "cirkit.backend.torch", "views-scanned", f"{n_views} view(..) calls", "", nontrivial=(n_views > 0)))
+    return out
+
+
+# ------------------------------------------------------------------------------------------ R14g
+def product_input_order(ctx: Ctx, fq: str = "cirkit.symbolic.functional.multiply") -> list[Ob]:
+    """R14g -- the product of two product layers lists its inputs in the operands' declared order.
+
+    ``multiply`` has to *match* the inputs of two product layers by scope; if it does so by sorting
+    both input lists and wiring the product block in the sorted order, an order-sensitive product
+    layer (Kronecker: unit (i, j) = input0[i] * input1[j]) whose inputs are not declared by increasing
+    scope gets its factors in another order than the operand it came from, and every layer above
+    reads the wrong units.  The list that becomes ``in_blocks[<product block>]`` must not derive from
+    ``sorted(..)`` / ``.sort()`` of a layer's inputs."""
+    f = ctx.repo.func(fq)
+    g = ctx.memo("cfg:" + fq, lambda: build_cfg(f.node))
+    fc = ctx.memo("flowcanon:" + fq, lambda: FlowCanon(g))
+    out: list[Ob] = []
+    for n, st in g.stmts.items():
+        if not isinstance(st, ast.Assign):
+            continue
+        for t in st.targets:
+            if isinstance(t, ast.Subscript) and unparse(t.value) == "in_blocks":
+                c = fc.text(st.value, n)
+                site = f"{f.module.relpath}:{st.lineno}"
+                key = fc.text(t.slice, n)
+                if "retrieve_rule" not in key and "func(" not in key and "prod_block" not in unparse(t.slice):
+                    continue  # only the block produced by a product rule
+                if "sorted(" in c and "layer_inputs(" in c:
+                    out.append(viol("R14g", fq, "product-input-order", "the inputs of the product block are wired in the order of `sorted(<layer inputs>, key=scope)`, not in the declared order of the operand's inputs: a Kronecker layer whose inputs are not listed by increasing scope (or with evidence on a later input: the empty scope sorts first) is multiplied into a layer whose units are in another order, and the product evaluates to wrong values without an error", site))
+                else:
+                    out.append(ok("R14g", fq, "product-input-order", "the product block's inputs follow the operand's declared input order", site))
+    if not out:
+        out.append(unres("R14g", fq, "product-input-order", "no wiring of a product-rule block found", f.loc))
+    return out
+
+
+# ------------------------------------------------------------------------------------------ R14h
+def scope_keyed_inputs(ctx: Ctx, modules: tuple[str, ...] = ("cirkit.symbolic.functional",)) -> list[Ob]:
+    """R14h -- the inputs of a layer are not indexed by their scopes.
+
+    The scopes of the inputs of one layer need not be distinct: a sum has same-scope inputs by
+    definition, and after ``evidence`` several inputs of a product have the *empty* scope.  A mapping
+    ``{scope_of(x): x for x in <layer inputs>}`` silently keeps one input per scope and drops the rest
+    (every empty-scope input of one operand is then multiplied with the same input of the other).
+    In the operator drivers, no dict / dict comprehension keyed by ``layer_scope(..)`` / ``.scope`` may
+    range over a layer's inputs."""
+    out: list[Ob] = []
+    n_fn = 0
+    for f in ctx.repo.iter_functions():
+        if f.module.name not in modules:
+            continue
+        n_fn += 1
+        g = build_cfg(f.node)
+        fc = FlowCanon(g)
+        for n, st in g.stmts.items():
+            roots = [st] if not isinstance(st, (ast.If, ast.For, ast.While, ast.With, ast.Try, ast.FunctionDef)) else ([st.test] if isinstance(st, (ast.If, ast.While)) else [st.iter] if isinstance(st, ast.For) else [])
+            for r in roots:
+                for c in ast.walk(r):
+                    if isinstance(c, ast.DictComp) and len(c.generators) >= 1:
+                        key_t = unparse(c.key)
+                        it_c = fc.text(c.generators[0].iter, n)
+                        if ("layer_scope(" in key_t or key_t.endswith(".scope")) and ("layer_inputs(" in it_c or "sorted(" in it_c and "layer_inputs" in it_c):
+                            out.append(viol("R14h", f.qualname, "inputs-by-scope", f"`{unparse(c)[:70]}` indexes the inputs of a layer by their scopes: inputs with equal scopes (several observed inputs of one product layer all have the empty scope) collide on the key, one survives and the others are silently dropped from the operator's result", f"{f.module.relpath}:{c.lineno}"))
+    out.append(ok("R14h", "cirkit.symbolic.functional", "inputs-by-scope", f"{n_fn} operator drivers scanned: no scope-keyed mapping over a layer's inputs", "", nontrivial=(n_fn > 0)))
+    return out
